@@ -28,6 +28,8 @@ type step struct {
 	Files map[string]string `json:"files,omitempty"` // path -> content label
 	Chunk uint64            `json:"chunk,omitempty"`
 	Fast  bool              `json:"fast_uploader,omitempty"`
+	// Resume: the build completes the existing index (--resume) instead of starting a new one
+	Resume bool `json:"resume,omitempty"`
 }
 
 type params struct {
@@ -80,7 +82,11 @@ func gen14(seed int64, tier string) []drv.Case {
 			shrink()
 		}
 		chunk := func() uint64 { return uint64([]int{1, 2, 3, 5, 7, 20, 1000}[r.Intn(7)]) }
-		st = append(st, step{Op: "build", Chunk: chunk(), Fast: r.Intn(2) == 0})
+		firstChunk := chunk()
+		if i%3 == 2 {
+			firstChunk = uint64(1 + r.Intn(2)) // many chunks: chunk-10 lists before chunk-2
+		}
+		st = append(st, step{Op: "build", Chunk: firstChunk, Fast: r.Intn(2) == 0})
 		if i%3 == 1 { // the set of referenced keys shrinks, then the index is rebuilt
 			shrink()
 			if r.Intn(2) == 0 {
@@ -89,6 +95,11 @@ func gen14(seed int64, tier string) []drv.Case {
 			}
 			st = append(st, step{Op: "build", Chunk: chunk(), Fast: r.Intn(2) == 0})
 		}
+		if i%3 == 2 { // more bundles arrive, the index is completed with --resume (chunk numbering continues)
+			c, rp := where()
+			st = append(st, step{Op: "upload", Ctx: c, Repo: rp, Files: files()})
+			st = append(st, step{Op: "build", Chunk: firstChunk, Fast: r.Intn(2) == 0, Resume: true})
+		}
 		if r.Intn(2) == 0 {
 			st = append(st, step{Op: "dry-run"})
 		}
@@ -96,6 +107,9 @@ func gen14(seed int64, tier string) []drv.Case {
 		cls := "history"
 		if i%3 == 1 {
 			cls = "history-with-rebuild"
+		}
+		if i%3 == 2 {
+			cls = "history-with-resumed-build"
 		}
 		cs = append(cs, drv.Case{ID: fmt.Sprintf("%s-%d", cls, i), Class: cls, Params: drv.MustJSON(params{Mode: "history", Steps: st, Leaf: leaf, Seed: r.Int63()})})
 	}
@@ -249,11 +263,19 @@ func run14(c drv.Case, res *drv.Result) {
 			want, _, err := needed(cx)
 			must(err)
 			kv := coreh.KVDir()
-			idx, err := core.PurgeBuildReverseIndex(main.Stores(memstore.NewActor("builder")), coreh.PurgeOpts(kv, cx.extra, s.Chunk, s.Fast)...)
+			bopts := coreh.PurgeOpts(kv, cx.extra, s.Chunk, s.Fast)
+			if s.Resume {
+				bopts = append(bopts, core.WithPurgeResumeIndex(true))
+			}
+			idx, err := core.PurgeBuildReverseIndex(main.Stores(memstore.NewActor("builder")), bopts...)
 			os.RemoveAll(kv)
 			builds++
 			res.Stat("index_builds", 1)
 			cls := fmt.Sprintf("build#%d", min(builds, 2))
+			if s.Resume {
+				cls += "-resumed"
+				res.Stat("index_builds_resumed", 1)
+			}
 			if err != nil {
 				res.Violate("build-failed", cls, "step %d: PurgeBuildReverseIndex (chunk size %d) failed: %v", si, s.Chunk, err)
 				return
